@@ -33,10 +33,10 @@ Definition transcode_stages (lenient : bool) (v : commodity) (days : list day) :
 Definition transcode_days (lenient : bool) (v : commodity) (ds : list sdirective) : cresult (list day) :=
   cbind (load ds) (fun b => transcode_stages lenient v (b_days b)).
 
-(* knut transcode [-v V] FILE.  Without -v the processors ComputePrices and Valuate are nil and
-   are skipped; Sort and Check run; then beancount.Transcode evaluates c.Name() on the nil
-   commodity: a nil-pointer panic (nothing has been written yet). *)
-Definition transcode_cmd (lenient : bool) (v : option commodity) (ds : list sdirective) : cresult str :=
+(* knut transcode [-v V] FILE as pinned.  Without -v the processors ComputePrices and Valuate are
+   nil and are skipped; Sort and Check run; then beancount.Transcode evaluates c.Name() on the
+   nil commodity: a nil-pointer panic (nothing has been written yet).  (F9) *)
+Definition transcode_cmd_pinned (lenient : bool) (v : option commodity) (ds : list sdirective) : cresult str :=
   cbind (valuation_flag v) (fun vo =>
   match vo with
   | Some c => cbind (transcode_days lenient c ds) (fun days => COk (transcode days c))
@@ -45,4 +45,13 @@ Definition transcode_cmd (lenient : bool) (v : option commodity) (ds : list sdir
     cbind (run_stage sort_proc tt (b_days b)) (fun r0 =>
     cbind (run_stage (check_proc lenient) check_init (snd r0)) (fun _ =>
     CPanic k_nil_commodity)))
+  end).
+
+(* knut transcode [-v V] FILE since fix 864fd70: a missing (or empty) -v is an error reported
+   before the journal is loaded *)
+Definition transcode_cmd (lenient : bool) (v : option commodity) (ds : list sdirective) : cresult str :=
+  cbind (valuation_flag v) (fun vo =>
+  match vo with
+  | Some c => cbind (transcode_days lenient c ds) (fun days => COk (transcode days c))
+  | None => CErr k_valuation []
   end).
